@@ -91,8 +91,11 @@ type Rule struct {
 	Nth   int
 	Count int // 0 or 1 = once; <0 = forever
 	Mode  Mode
-	seen  int
-	Fired int
+	// FlipPos selects the damaged byte of a ModeFlip read: 0 the middle of the data returned,
+	// 1 its last byte, 2 the byte before the last, 3 the first quarter.
+	FlipPos int
+	seen    int
+	Fired   int
 }
 
 type Mode uint8
@@ -389,7 +392,16 @@ func (r *reader) fault(p []byte, n int) error {
 		op.Inj = true
 		if ru.Mode == ModeFlip {
 			if n > 0 {
-				p[n/2] ^= 0x40
+				i := n / 2
+				switch ru.FlipPos {
+				case 1:
+					i = n - 1
+				case 2:
+					i = max(n-2, 0)
+				case 3:
+					i = n / 4
+				}
+				p[i] ^= 0x40
 			}
 			return nil
 		}
